@@ -413,7 +413,7 @@ func namedDrive(args []string) int {
 
 func init() { register("named-drive", namedDrive) }
 
-// named-storm: one goroutine creates and deletes a name as fast as it can while others look it up - the schedule the
+// named-storm: one goroutine creates and deletes names as fast as it can while others look them up and one lists the registry - the schedule the
 // scheduled replay cannot produce (no gate sits between the registry's unlock and the caller's use of the result).
 // Reports look-ups that returned neither a pipe nor an error; an unsynchronised access kills the process
 // ("fatal error: concurrent map read and map write"), which the driver reports.
@@ -443,6 +443,21 @@ func namedStorm(args []string) int {
 				n.CreatePipe("t", "std", "")
 				n.Dump()
 				n.Delete("t")
+			}
+		}()
+		// ... and one lists the registry (runtime --named-pipes) all the time
+		wg.Add(1)
+		go func() {
+			defer wg.Done()
+			for {
+				select {
+				case <-stop:
+					return
+				default:
+				}
+				for k := range n.Dump() {
+					_ = k
+				}
 			}
 		}()
 		for g := 0; g < *getters; g++ {
